@@ -1,21 +1,26 @@
 #!/bin/bash
-# usage: scripts/run_seeds.sh [seed-dir-name ...]   (default: every /verif/seeded/*)
+# usage: [JOBS=4] scripts/run_seeds.sh [seed-dir-name ...]   (default: every /verif/seeded/*)
 # Runs every stored seeded change against the quick check of the property it breaks (scratch worktree, never /repo)
-# and writes /verif/seeded/RESULTS.tsv: seed <tab> property <tab> exit <tab> violations <tab> first signature
+# and writes /verif/seeded/RESULTS.tsv: seed <tab> property <tab> exit <tab> violations <tab> sibling <tab> first signature
 cd "$(dirname "$0")/.."
-seeds=("$@"); [ ${#seeds[@]} -eq 0 ] && seeds=($(ls seeded | grep -E '^C[0-9]+(-r[0-9]+)?-m[0-9]+$'))
-tmp=$(mktemp)
-for s in "${seeds[@]}"; do
+if [ "$1" = "--one" ]; then
+  s=$2
   prop=$(python3 -c "import json;print(json.load(open('seeded/$s/meta.json'))['property'])")
   extra=""
   # a seed may also be visible to a sibling property's check
   case $prop in C03) extra="C04";; C04) extra="C03";; esac
-  out=$(VERIF_BUDGET_S=${VERIF_BUDGET_S:-900} SHOW=2 scripts/try_seed.sh "seeded/$s/patch.diff" quick $prop $extra 2>&1)
+  drv="cmd/$(echo $prop | tr 'C' 'c')"; [ -n "$extra" ] && drv="cmd/verif"
+  out=$(DRIVER=$drv VERIF_BUDGET_S=${VERIF_BUDGET_S:-900} SHOW=2 scripts/try_seed.sh "seeded/$s/patch.diff" quick $prop $extra 2>&1)
   line=$(echo "$out" | grep "^check=$prop " | head -1)
   ex=$(echo "$line" | sed 's/.*exit=\([0-9]*\).*/\1/'); v=$(echo "$line" | sed 's/.*violations=\([0-9]*\).*/\1/')
   sig=$(echo "$out" | grep -m1 'signature:' | sed 's/.*signature: //')
   other=""
   if [ -n "$extra" ]; then other=$(echo "$out" | grep "^check=$extra " | sed 's/.*exit=\([0-9]*\).*/\1/'); fi
-  printf "%s\t%s\t%s\t%s\t%s\t%s\n" "$s" "$prop" "$ex" "$v" "${extra:+$extra exit=$other}" "$sig" | tee -a "$tmp"
-done
-if [ $# -eq 0 ]; then mv "$tmp" seeded/RESULTS.tsv; else rm -f "$tmp"; fi
+  printf "%s\t%s\t%s\t%s\t%s\t%s\n" "$s" "$prop" "$ex" "$v" "${extra:+$extra exit=$other}" "$sig"
+  exit 0
+fi
+seeds=("$@"); [ ${#seeds[@]} -eq 0 ] && seeds=($(ls seeded | grep -E '^C[0-9]+(-r[0-9]+)?-m[0-9]+$'))
+tmp=$(mktemp)
+printf "%s\n" "${seeds[@]}" | xargs -P "${JOBS:-3}" -I{} "$0" --one {} | tee -a "$tmp"
+if [ $# -eq 0 ]; then sort "$tmp" > seeded/RESULTS.tsv; fi
+rm -f "$tmp"
